@@ -145,6 +145,11 @@ func genStep(p *Profile, cfg *Config) *rapid.Generator[[]Op] {
 				ops = append(ops, Op{K: "pick", M: 3, Key: key}, Op{K: "done", Idx: -1, Out: rapid.SampledFrom([]int{0, 0, 1, 11, 19, 23}).Draw(t, "uout")})
 			}
 			ops = append(ops, Op{K: "pick", M: um, Key: key})
+			if um == 2 && rapid.IntRange(0, 2).Draw(t, "twins") == 0 {
+				// the key is also used by requests of the two types that print alike (one after the other, with some load in
+				// between so that a wrong channel shows)
+				ops = append(ops, Op{K: "pick", M: 0}, Op{K: "pick", M: 2, Key: key, Msg: 6}, Op{K: "pick", M: 2, Key: key, Msg: 7}, Op{K: "pick", M: 2, Key: key, Msg: 6})
+			}
 			return ops
 		case "decall":
 			// a call with a short deadline, time passes to (around) the detector boundary, client-side deadline error
